@@ -72,6 +72,12 @@ template <class T> struct PoolT {
                             if (!threw || !threw_c) bad = "!at-range";
                         }
                     }
+                    // equality and ordering are functions of (data(), size()) too: compared with a fresh object holding the same units
+                    // (in-object sizes only, so the probe never allocates; seeded C06-G compared the raw in-object arrays)
+                    if (!bad && n < 12) {
+                        const B same(p, n);
+                        if (!(cb == same) || (cb != same) || !(same == cb) || (same != cb) || cb.compare(same) != 0 || same.compare(cb) != 0) bad = "!equality";
+                    }
                 }
                 if (bad) where = bad;
             }
